@@ -203,11 +203,35 @@ class SymReal:
             if fn is None:
                 raise Unsupported("complex operand")
             return fn(o, c) if rev else fn(c, o)
+        if isinstance(o, (float, np.floating)) and np.isinf(o):
+            return self._with_inf(float(o), getattr(f, "_nm", ""), rev)
         ot = lift(o)
         if ot is None:
             return NotImplemented
         a, b = (ot, self.t) if rev else (self.t, ot)
         return SymReal(_simp(f(a, b)))
+
+    def _with_inf(self, inf, op, rev):
+        """IEEE arithmetic of a finite symbolic real with +-inf (the result is a concrete float)."""
+        if op == "add":
+            return inf
+        if op == "sub":
+            return inf if rev else -inf
+        if op == "mul":
+            if bool(self > 0):
+                return inf
+            if bool(self < 0):
+                return -inf
+            return float("nan")
+        if op == "div":
+            if not rev:
+                return 0.0
+            if bool(self > 0):
+                return inf
+            if bool(self < 0):
+                return -inf
+            raise ZeroDivisionError("inf / symbolic zero")
+        raise Unsupported("inf in symbolic arithmetic")
 
     def __add__(self, o):
         return self._bin(o, _f_add)
@@ -589,9 +613,25 @@ def sym_log(x):
     return math.log(x)
 
 
+def _is_integral(t) -> bool:
+    """Syntactic test: the real term is integer-valued (ToReal(..), integer constants, sums/products/ite of such)."""
+    if _is_const(t):
+        return _const_fraction(t).denominator == 1
+    k = t.decl().kind()
+    if k == z3.Z3_OP_TO_REAL:
+        return True
+    if k in (z3.Z3_OP_ADD, z3.Z3_OP_SUB, z3.Z3_OP_MUL, z3.Z3_OP_UMINUS):
+        return all(_is_integral(c) for c in t.children())
+    if k == z3.Z3_OP_ITE:
+        return _is_integral(t.children()[1]) and _is_integral(t.children()[2])
+    return False
+
+
 def sym_rint(x):
     """Round half to even over the reals (numpy.rint / numpy.round(decimals=0))."""
     if isinstance(x, SymReal):
+        if _is_integral(x.t):
+            return x
         half = z3.RealVal("1/2")
         fl = z3.ToInt(x.t + half)
         r = z3.ToReal(fl)
